@@ -41,6 +41,7 @@ fn mode_for(name: &str) -> Option<Box<dyn Mode>> {
         "step" => Some(Box::new(m_step::StepMode::new())),
         "elf" => Some(Box::new(m_elf::ElfMode::new())),
         "run" => Some(Box::new(m_run::RunMode::new())),
+        "bin" => Some(Box::new(m_run::RunMode::new_bin())),
         "bus09" => Some(Box::new(m_bus::BusMode::new(9))),
         "bus16" => Some(Box::new(m_bus::BusMode::new(16))),
         "bus17" => Some(Box::new(m_bus::BusMode::new(17))),
